@@ -113,6 +113,14 @@ MarkerParen == MarkerSet({LetterParen})            \* expected to FAIL as built:
 HyphenSplit == LET ref == TokT(In)  lo == LineOfSeq(In)  ex == ExemptSeq(In) IN
            \A i \in 2..Len(In) : (IsLetter(In[i - 1]) /\ IsLetter(In[i]) /\ ~ex[lo[i]]) =>
               WordsOf(InsBefore(In, i, <<"-", NL>>)) = Words(ref.toks)
-(* C11 on the tokenizer level *)
+(* C11 on the tokenizer level.  The two open findings of C11 are excluded from the domain of Fixpoint:
+     a token that ends in "-" and is the last of its line (Normalize writes it at the end of a line, where it re-joins),
+     a line whose cleaned words read as a notice although the raw line does not (C11-cleaned-line-is-notice). *)
+TokLinesOf(ts) == {ts[j].l : j \in 1..Len(ts)}
+HyphenTokenAtLineEnd(x) == LET ts == TokT(x).toks IN
+   \E j \in 1..Len(ts) : ts[j].w # <<>> /\ Last(ts[j].w) = "-" /\ (j = Len(ts) \/ ts[j + 1].l > ts[j].l)
+CleanedLineIsNotice(x) == LET ts == TokT(x).toks IN
+   \E k \in TokLinesOf(ts) : IsNotice(Joined(SelectSeq([j \in 1..Len(ts) |-> IF ts[j].l = k THEN ts[j].w ELSE <<>>], LAMBDA w : w # <<>>)))
+FixpointDom == (~HyphenTokenAtLineEnd(In) /\ ~CleanedLineIsNotice(In)) => TokT(Normalize(In)).toks = TokT(In).toks
 Fixpoint == TokT(Normalize(In)).toks = TokT(In).toks     \* Match(Normalize(in)) sees the words Match(in) sees, on the same lines
 =============================================================================
